@@ -1,6 +1,12 @@
 // Package poolfork binds spec/PoolFork.tla to the real engine + pool (C18, fork-switch clause): blocks carrying
-// real transactions are inserted into a real observer node whose pool initially holds every transaction of the
-// universe; after every InsertBlock the head and the pool content are logged.
+// real transactions are inserted into a real observer node (store, DPoVP, TxPool and TxGuard wired by
+// chain.NewBlockChain) whose pool initially holds what the spec's initial state names (every transaction of the
+// universe, or none: they are then only known from blocks).  Blocks may arrive with a
+// deputy's confirm (they become stable inside the same saveNewBlock) or the confirm is delivered afterwards with
+// DPoVP.InsertConfirms; block times come from epochs that lie more than the maximum transaction lifetime apart
+// (whole idle rotations between a block and its parent) and a transaction expires in the epoch of the blocks that
+// may carry it.  After every call the head, the stable block and the pool content - GetTxs at the latest block
+// time the node has seen - are logged.  The adapter never judges.
 package poolfork
 
 import (
@@ -9,18 +15,29 @@ import (
 	"os"
 	"path/filepath"
 	"sort"
+	"time"
 
 	"github.com/LemoFoundationLtd/lemochain-core/chain/deputynode"
 	"github.com/LemoFoundationLtd/lemochain-core/chain/params"
 	"github.com/LemoFoundationLtd/lemochain-core/chain/types"
 	"github.com/LemoFoundationLtd/lemochain-core/common"
+	"github.com/LemoFoundationLtd/lemochain-core/store"
 
 	"verifharness/engine"
 	"verifharness/node"
 	"verifharness/tla"
 )
 
-const nDeputies = 3
+const (
+	nDeputies = 3
+	slotMs    = 1000
+	// whole rotations of idle slots between two epochs: 1000 * 3 deputies * 1 s = 50 min > MaxTxLifeTime (30 min)
+	epochRounds = 1000
+	epochSec    = epochRounds * nDeputies * slotMs / 1000
+	// a transaction of epoch e expires txLife seconds after the epoch starts: later than every block of the epoch
+	// (they are seconds apart), within the lifetime window of each of them, and long before the next epoch
+	txLife = 1000
+)
 
 type adapter struct {
 	w       *node.World
@@ -29,9 +46,69 @@ type adapter struct {
 	built   map[string]*types.Block
 	txs     map[string]*types.Transaction
 	ids     map[common.Hash]string
+	all     []string
+	txep    map[string]int
 	blocks  []*types.Block
 	nut     *node.Node
+	now     uint32 // latest block time seen by the node under test
 	seq     int
+	retired []retiredNode
+}
+
+// A node whose blocks became stable is not closed while its store still writes: the store writes the index data of
+// stable blocks from a background goroutine that panics when the database is closed underneath it, and Close() with
+// queued writes leaves that goroutine (and its channel buffers) blocked for ever.  A retired node is closed as soon as
+// its write queue has drained (at the latest 20 s after its last use).
+type retiredNode struct {
+	n  *node.Node
+	at time.Time
+}
+
+func drained(n *node.Node) bool {
+	if n.DB == nil || n.DB.Beansdb == nil || n.DB.Beansdb.Queue == nil {
+		return true
+	}
+	q := n.DB.Beansdb.Queue
+	q.IndexRW.RLock()
+	k := len(q.Index)
+	q.IndexRW.RUnlock()
+	return k == 0 && len(q.SyncFileDB.WriteChan) == 0 && len(q.DoneChan) == 0
+}
+
+func (a *adapter) retire(n *node.Node) {
+	if n != nil {
+		a.retired = append(a.retired, retiredNode{n, time.Now()})
+	}
+}
+
+// destroy closes a quiescent node and drops the channel buffers of its store (4 MB): the engine's own 30 s timers
+// (FetchRemoteConfirms after a stable change) keep the closed node reachable, which would pin gigabytes per process.
+func destroy(n *node.Node) {
+	var q *store.FileQueue
+	if n.DB != nil && n.DB.Beansdb != nil {
+		q = n.DB.Beansdb.Queue
+	}
+	n.Destroy()
+	if q != nil {
+		q.DoneChan = nil
+		if q.SyncFileDB != nil {
+			q.SyncFileDB.DoneChan, q.SyncFileDB.WriteChan = nil, nil
+		}
+	}
+}
+
+func (a *adapter) reap(all bool) {
+	var keep []retiredNode
+	for _, r := range a.retired {
+		if age := time.Since(r.at); age > 20*time.Second || drained(r.n) {
+			destroy(r.n)
+		} else if all {
+			os.RemoveAll(r.n.Dir)
+		} else {
+			keep = append(keep, r)
+		}
+	}
+	a.retired = keep
 }
 
 func (a *adapter) init() {
@@ -39,28 +116,39 @@ func (a *adapter) init() {
 	if a.dir == "" {
 		a.dir = filepath.Join(os.TempDir(), fmt.Sprintf("verif-poolfork-%d", os.Getpid()))
 	}
-	a.w = node.NewWorld(nDeputies, 1000)
+	if epochSec <= params.MaxTxLifeTime+txLife+120 {
+		engine.Failf("epoch gap %d s does not exceed the transaction lifetime %d s (+%d +buckets)", epochSec, params.MaxTxLifeTime, txLife)
+	}
+	a.w = node.NewWorld(nDeputies, slotMs)
 	deputynode.SetSelfNodeKey(a.w.Outsider2())
 	a.builder = a.w.NewNode(filepath.Join(a.dir, "builder"))
 	a.built = map[string]*types.Block{}
 	a.txs = map[string]*types.Transaction{}
 	a.ids = map[common.Hash]string{}
-	to := common.HexToAddress("0x0100000000000000000000000000000000000b01")
-	for i, id := range []string{"x", "y", "z"} {
-		tx := types.NewTransaction(a.w.Founder, to, big.NewInt(int64(1000+i)), 100000, big.NewInt(1000000000), nil, params.OrdinaryTx, node.ChainID,
-			uint64(node.GenesisTime)+1000, "", id)
-		stx, err := types.DefaultSigner{}.SignTx(tx, a.w.FounderKey)
-		if err != nil {
-			panic(err)
-		}
-		a.txs[id] = stx
-		a.ids[stx.Hash()] = id
-	}
 }
 
+// tx returns the real transaction that stands for the spec's transaction id when it expires in epoch ep.
+func (a *adapter) tx(id string, ep int) *types.Transaction {
+	key := fmt.Sprintf("%s@%d", id, ep)
+	if tx, ok := a.txs[key]; ok {
+		return tx
+	}
+	to := common.HexToAddress("0x0100000000000000000000000000000000000b01")
+	exp := uint64(a.w.GenesisTime) + uint64(ep*epochSec) + txLife
+	tx := types.NewTransaction(a.w.Founder, to, big.NewInt(int64(1000+len(a.txs))), 100000, big.NewInt(1000000000), nil, params.OrdinaryTx, node.ChainID, exp, "", key)
+	stx, err := types.DefaultSigner{}.SignTx(tx, a.w.FounderKey)
+	if err != nil {
+		engine.Failf("sign tx: %v", err)
+	}
+	a.txs[key] = stx
+	a.ids[stx.Hash()] = id
+	return stx
+}
+
+// pool asks the real pool the way a miner at time a.now would.
 func (a *adapter) pool() []string {
 	out := []string{}
-	for _, tx := range a.nut.Pool.GetTxs(uint32(node.GenesisTime), 100) {
+	for _, tx := range a.nut.Pool.GetTxs(a.now, 100) {
 		id, ok := a.ids[tx.Hash()]
 		if !ok {
 			id = "unknown:" + tx.Hash().Hex()
@@ -71,82 +159,169 @@ func (a *adapter) pool() []string {
 	return out
 }
 
+func (a *adapter) index(h common.Hash) int {
+	for i, blk := range a.blocks {
+		if blk.Hash() == h {
+			return i
+		}
+	}
+	return -1
+}
+
+func size(v tla.Value) int {
+	if v.Kind == tla.KFun {
+		return len(v.Keys)
+	}
+	return len(v.Elems)
+}
+
 func (a *adapter) Reset(init map[string]tla.Value) (engine.Fields, error) {
 	if a.w == nil {
 		a.init()
 	}
-	if a.nut != nil {
-		a.nut.Destroy()
-	}
-	parent, txs := init["parent"], init["txs"]
-	nb := len(parent.Elems)
-	if parent.Kind == tla.KFun {
-		nb = len(parent.Keys)
-	}
+	a.retire(a.nut)
+	a.nut = nil
+	a.reap(false)
+	parent, txs, ep := init["parent"], init["txs"], init["ep"]
+	nb := size(parent)
+	gt := a.w.GenesisTime
 	a.blocks = []*types.Block{a.builder.Genesis}
-	pars := []int{}
+	eps := []int{0}
+	pars, beps, times := []int{}, []int{}, []int{}
 	btx := [][]string{}
+	// the universe of transactions and their epochs (the spec's constant TxEp, carried in the state for the binding)
+	te := init["txep"]
+	txep := map[string]int{}
+	switch te.Kind {
+	case tla.KRec:
+		for k, v := range te.Fields {
+			txep[k] = v.I()
+		}
+	case tla.KFun:
+		for i, k := range te.Keys {
+			txep[k.S()] = te.Vals[i].I()
+		}
+	default:
+		engine.Failf("txep is neither a record nor a function: %s", te.String())
+	}
+	a.txep = txep
+	a.all = nil
+	for k := range txep {
+		a.all = append(a.all, k)
+	}
+	sort.Strings(a.all)
 	for b := 1; b <= nb; b++ {
 		p := parent.GetI(b).I()
+		e := ep.GetI(b).I()
 		ids := txs.GetI(b).Strs()
 		sort.Strings(ids)
 		pb := a.blocks[p]
+		if e < eps[p] {
+			engine.Failf("block %d: epoch %d before its parent's %d", b, e, eps[p])
+		}
 		rank := int(pb.Height()) % nDeputies // slot 0 rotation: height h is mined by rank (h-1) % n
-		key := fmt.Sprintf("%s/%v/b%d", pb.Hash().Hex(), ids, b)
+		rounds := (e - eps[p]) * epochRounds
+		key := fmt.Sprintf("%s/%v/b%d/r%d/e%d", pb.Hash().Hex(), ids, b, rounds, e)
 		blk, ok := a.built[key]
 		if !ok {
 			var list types.Transactions
 			for _, id := range ids {
-				list = append(list, a.txs[id])
+				list = append(list, a.tx(id, a.txep[id]))
 			}
 			var inv types.Transactions
 			var err error
-			blk, inv, err = a.builder.Build(pb, rank, 0, list, fmt.Sprintf("b%d", b))
+			blk, inv, err = a.builder.Build(pb, rank, rounds, list, fmt.Sprintf("b%d", b))
 			if err != nil || len(inv) != 0 {
-				engine.Realf("build block %d: %v (invalid %d)", b, err, len(inv))
+				// an honest miner (the real BlockAssembler) cannot build an honest block: a verdict, not a harness failure
+				engine.Realf("build block %d (epoch %d, txs %v): %v (invalid %d)", b, e, ids, err, len(inv))
 			}
 			a.built[key] = blk
 		}
+		for _, id := range ids {
+			// harness sanity: what a block carries is inside its lifetime window (else the builder had dropped it)
+			if x := a.tx(id, a.txep[id]).Expiration(); x < uint64(blk.Time()) || x > uint64(blk.Time())+uint64(params.MaxTxLifeTime) {
+				engine.Failf("block %d (time %d) carries %s expiring at %d", b, blk.Time(), id, x)
+			}
+		}
+		lo, hi := gt+uint32(e*epochSec), gt+uint32(e*epochSec)+60
+		if blk.Time() < lo || blk.Time() > hi {
+			engine.Failf("block %d: time %d outside epoch %d [%d,%d]", b, blk.Time(), e, lo, hi)
+		}
 		a.blocks = append(a.blocks, blk)
+		eps = append(eps, e)
 		pars = append(pars, p)
+		beps = append(beps, e)
+		times = append(times, int(blk.Time()-gt))
 		btx = append(btx, ids)
 	}
 	a.seq++
 	a.nut = a.w.NewNode(filepath.Join(a.dir, fmt.Sprintf("nut%d", a.seq)))
-	all := []string{"x", "y", "z"}
-	for _, id := range all {
-		if err := a.nut.Pool.AddTx(a.txs[id]); err != nil {
+	a.now = gt
+	exp := map[string]int{}
+	for _, id := range a.all {
+		exp[id] = int(a.tx(id, a.txep[id]).Expiration() - uint64(gt))
+	}
+	// what was submitted to the node before the run: the spec's initial pool
+	pend := init["pool"].Strs()
+	sort.Strings(pend)
+	for _, id := range pend {
+		if _, ok := a.txep[id]; !ok {
+			engine.Failf("initial pool names %s, which is not in the universe", id)
+		}
+		if err := a.nut.Pool.AddTx(a.tx(id, a.txep[id])); err != nil {
 			engine.Failf("pool add: %v", err)
 		}
 	}
-	return engine.Fields{"parent": pars, "txs": btx, "all": all, "pool": a.pool()}, nil
+	return engine.Fields{"parent": pars, "txs": btx, "ep": beps, "time": times, "all": a.all, "exp": exp, "pend": pend,
+		"now": 0, "pool": a.pool()}, nil
 }
 
 func (a *adapter) Apply(s engine.Step) (engine.Fields, error) {
-	if s.Act.Name != "InsertBlock" {
+	b := s.Act.Args[0].I()
+	if b < 1 || b >= len(a.blocks) {
+		return nil, fmt.Errorf("no block %d", b)
+	}
+	blk := a.blocks[b]
+	// the confirm of a deputy that is not the miner: with 3 deputies it completes the quorum of 2
+	minerRank := (int(blk.Height()) - 1) % nDeputies
+	sig := node.Sign(blk.Hash(), a.w.Keys[(minerRank+1)%nDeputies], 0)
+	var err error
+	switch s.Act.Name {
+	case "InsertBlock":
+		var confirms []types.SignData
+		if s.Act.Args[1].I() == 1 {
+			confirms = []types.SignData{sig}
+		}
+		_, err = a.nut.DP.InsertBlock(node.Copy(blk, confirms))
+		if err == nil && blk.Time() > a.now {
+			a.now = blk.Time()
+		}
+	case "InsertConfirms":
+		err = a.nut.DP.InsertConfirms(blk.Height(), blk.Hash(), []types.SignData{sig})
+	default:
 		return nil, fmt.Errorf("unknown action %s", s.Act.Name)
 	}
-	b := s.Act.Args[0].I()
-	_, err := a.nut.DP.InsertBlock(node.Copy(a.blocks[b], nil))
 	fl := engine.Fields{"ok": err == nil}
 	if err != nil {
 		fl["err"] = err.Error()
 	}
-	head := a.nut.DP.CurrentBlock().Hash()
-	fl["head"] = -1
-	for i, blk := range a.blocks {
-		if blk.Hash() == head {
-			fl["head"] = i
-		}
-	}
+	fl["head"] = a.index(a.nut.DP.CurrentBlock().Hash())
+	fl["stable"] = a.index(a.nut.DP.StableBlock().Hash())
+	fl["now"] = int(a.now - a.w.GenesisTime)
 	fl["pool"] = a.pool()
 	return fl, nil
 }
 
 func (a *adapter) Close() {
-	if a.nut != nil {
-		a.nut.Destroy()
+	a.retire(a.nut)
+	a.nut = nil
+	for i := 0; i < 40 && len(a.retired) > 0; i++ { // give the stores up to 2 s to drain, then drop what is left
+		a.reap(false)
+		if len(a.retired) > 0 {
+			time.Sleep(50 * time.Millisecond)
+		}
 	}
+	a.reap(true)
 	if a.builder != nil {
 		a.builder.Destroy()
 	}
